@@ -13,6 +13,10 @@ PROP = "C15"
 FACTORY = "vlib.props.c15:ObsHarness"
 
 
+class ObserverStartError(Exception):
+    pass
+
+
 class ObsHarness(planh.PlanHarness):
     def __init__(self, cfg):
         cfg = dict(cfg)
@@ -64,10 +68,49 @@ class ObsHarness(planh.PlanHarness):
         self.state = {i: (None if v == "missing" else (1, planh.Val(i, (), ()))) for i, v in self.stored.items()}
         return ctx
 
+    def make_recorder_id(self, s, rid, fail_enter=False):
+        from uberjob.progress import Progress, ProgressObserver
+
+        class Recorder(ProgressObserver):
+            def __enter__(self_):
+                s.log("obsid", rid, "enter")
+                e1.hpoint("obs.enter")
+                if fail_enter:
+                    s.log("obsid", rid, "enter-raised")
+                    raise ObserverStartError(f"observer {rid} cannot start")
+
+            def __exit__(self_, et, ev, tb):
+                s.log("obsid", rid, "exit", getattr(et, "__name__", None))
+                e1.hpoint("obs.exit")
+
+            def increment_total(self_, *, section, scope, amount):
+                s.log("obsid", rid, "total", section, scope, amount)
+
+            def increment_running(self_, *, section, scope):
+                s.log("obsid", rid, "running", section, scope)
+                e1.hpoint("obs.running")
+
+            def increment_completed(self_, *, section, scope):
+                s.log("obsid", rid, "completed", section, scope)
+                e1.hpoint("obs.completed")
+
+            def increment_failed(self_, *, section, scope, exception):
+                s.log("obsid", rid, "failed", section, scope, type(exception).__name__)
+                e1.hpoint("obs.failed")
+
+        return Progress(Recorder)
+
     def run_kwargs(self):
         kw = super().run_kwargs()
         if self.registry is not None:
             kw["registry"] = self.registry
+        ob = self.cfg["observer"]
+        if ob.startswith("list"):
+            # progress given as a list of members (coerced to a composite); optionally one member fails to start
+            s = e1.sched()
+            k = int(ob[4]) if len(ob) > 4 and ob[4].isdigit() else 3
+            bad = int(ob.split("fail")[1]) if "fail" in ob else None
+            kw["progress"] = [self.make_recorder_id(s, r, fail_enter=(r == bad)) for r in range(k)]
         return kw
 
     def body(self, ctx):
@@ -89,6 +132,8 @@ class ObsHarness(planh.PlanHarness):
         okey = (x.status, order, mr and mr[0])
         if x.status != "ok":
             return msgs, okey
+        if self.cfg["observer"].startswith("list"):
+            return msgs + self.check_members(ev, mr), okey
         obs = [e[1:] for e in ev if e[0] == "obs"]
         nobs = 2 if self.cfg["observer"] == "rec2" else 1
         streams = split_streams(obs, nobs)
@@ -124,6 +169,35 @@ class ObsHarness(planh.PlanHarness):
             elif any(sec == "stale" for sec, _ in totals):
                 msgs.append(("C15", "'stale' totals announced although no registry was given"))
         return msgs, okey
+
+    def check_members(self, ev, mr):
+        """progress=[m0, m1, ...]: every member that was entered is exited exactly once, after everything else it
+        received; all members that started receive identical notifications; a member failing to start fails the run."""
+        msgs = []
+        per = {}
+        for e in ev:
+            if e[0] == "obsid":
+                per.setdefault(e[1], []).append(e[2:])
+        bad = [r for r, seq in per.items() if ("enter-raised",) in seq]
+        ok_run = mr[0] == "ret"
+        only_exc = all(k == "exc" for k in self.fail.values())
+        for r, seq in sorted(per.items()):
+            if r in bad:
+                continue  # its __enter__ raised: it was never started, so it owes (and is owed) nothing
+            for m in automaton(seq, ok_run, only_exc, type(mr[1]).__name__ if mr[0] == "exc" else None):
+                msgs.append(("C15", f"member {r} of progress=[...]: {m}"))
+        good = [seq for r, seq in sorted(per.items()) if r not in bad]
+        if bad:
+            if ok_run or not isinstance(mr[1], ObserverStartError):
+                msgs.append(("C15", f"observer member {bad} failed to start but run gave {mr[0]} {mr[1]!r}"))
+            if any(e[0] == "start" for e in ev):
+                msgs.append(("C15", "calls were executed although an observer failed to start"))
+        else:
+            for seq in good[1:]:
+                if seq != good[0]:
+                    msgs.append(("C15", "members of progress=[...] did not receive identical notification sequences"))
+                    break
+        return msgs
 
     def output_gather_calls(self):
         """Number of gather calls run() adds for the output specification (containers that hold nodes)."""
@@ -238,7 +312,10 @@ def cfgs(tier, W):
             if tier == "quick" and W == 2:
                 stored_opts = [None, stored_opts[1 + si % 2]]
             for stored in stored_opts:
-                for obs in (("rec", "rec2") if (W == 1 or tier != "quick") else ("rec",)):
+                obs_opts = ("rec", "rec2") if (W == 1 or tier != "quick") else ("rec",)
+                if W == 1 and stored is None and (me == 0 or tier != "quick"):
+                    obs_opts += ("list3", "list3fail1", "list3fail2", "list2fail0")
+                for obs in obs_opts:
                     if stored and obs == "rec2" and tier == "quick":
                         continue
                     out.append({"n": n, "edges": edges, "scopes": scopes, "fname": fname, "output": output, "W": W,
